@@ -198,6 +198,7 @@ func runSegments(bs []vlib.Behaviour, cfgJSON string, res *vlib.Result) {
 	}
 	rnd := rand.New(rand.NewSource(vlib.Seed()))
 	for _, b := range bs {
+		vlib.Progress(b.ID)
 		res.Behaviours++
 		replaySegments(b, cfg, origin, rnd, res)
 	}
